@@ -95,6 +95,17 @@ func (env *Env) callExpr(c *ast.CallExpr) Value {
 			env.fail("addr(%s): not a variable living in memory at this point", id.Name)
 		}
 		return p
+	case "closureOf": // closureOf(f, "name"): f is (statically) the closure / function literal called name
+		v := arg(0)
+		lit, isLit := c.Args[1].(*ast.BasicLit)
+		if !isLit {
+			env.fail("closureOf takes a string literal")
+		}
+		name := strings.Trim(lit.Value, "\"`")
+		if v.Fn != nil && (v.Fn.Name == name || strings.HasSuffix(v.Fn.Name, "."+name)) {
+			return Value{T: tBool, S: "true"}
+		}
+		return Value{T: tBool, S: "false"}
 	case "deepEqual": // the model's reflect.DeepEqual on two interface values (uninterpreted; true for identical values)
 		a, b := arg(0), arg(1)
 		if kindOf(a.T) != kIface || kindOf(b.T) != kIface {
